@@ -27,6 +27,26 @@ def _c05(pid, tier, seed):
 
 
 CHECKS["C05"] = _c05
+
+
+def _c16(pid, tier, seed):
+    """C16 has two legs: decoder observations at every quiescent point of API histories (ApiTrace) and decoder
+    observations of every recovered crash image of histories that cross the page-elision threshold."""
+    import json, os, time
+    from . import common as C
+    t0 = time.time()
+    rc1 = apichecks.run_plan(pid, tier, seed)
+    extra = None
+    try:
+        extra = json.load(open(os.path.join(C.EVID, "%s.json" % pid)))["coverage"]
+        extra.pop("samples", None)
+    except Exception:
+        pass
+    rc2 = sync.run_plan(pid, tier, seed, extra_cov=extra, t0=t0)
+    return 1 if (rc1 or rc2) else 0
+
+
+CHECKS["C16"] = _c16
 for _p in ("C03", "C04", "C14", "C17"):
     CHECKS[_p] = sync.run_plan
 CHECKS["C15"] = conc.run_c15
